@@ -309,7 +309,7 @@ class ProtoConv:
         ftok = self.it.tok(("f", p.doc_string if p.HasField("doc_string") else "",
                             tuple({o.domain: o.version for o in p.opset_import}.items()),
                             tuple(sorted((serde.deserialize_metadata_props(p.metadata_props) or {}).items())),
-                            tuple(akeys.items())))
+                            tuple(sorted(akeys.items()))))      # a function's attributes are a name -> default mapping
         return (f"(mkFP {cNtok(fid)} {cNtok(ftok)} {clist(cNtok(self.it.tok(x)) for x in p.input)} "
                 f"{clist(cNtok(self.it.tok(x)) for x in p.output)} "
                 f"{clist(self.vinfo(i) for i in getattr(p, 'value_info', []))} {self.nodes(p.node)} {common.cbool(bad)})")
@@ -431,7 +431,7 @@ def function_tok(it, f):
     for k, a in f.attributes.items():
         akeys[k] = ("undef",) if a.value is None and not a.is_ref() else attr_key(a)
     return it.tok(("f", f.doc_string or "", tuple(f.opset_imports.items()),
-                   tuple(sorted((f._graph._metadata_props or {}).items())), tuple(akeys.items())))  # noqa: SLF001
+                   tuple(sorted((f._graph._metadata_props or {}).items())), tuple(sorted(akeys.items()))))  # noqa: SLF001
 
 
 def model_tok(it, m):
